@@ -125,17 +125,22 @@ pub fn run(args: &[String]) {
 /// hypothesis of the Lean model: the real f32 limit is never below `isqrt(m) + 1`
 pub fn sqrtlim(args: &[String]) {
     let hi: u64 = args[0].parse().unwrap();
-    let mut bad = 0u64;
+    let mut rep = crate::report::Report::default();
     let mut above = 0u64;
     for m in 1..hi {
         let real = vh::f32_sqrt_limit(m as usize) as u64;
         let model = isqrt(m) + 1;
+        rep.evaluations += 1;
+        if m >= 25 {
+            rep.nontrivial += 1;
+        }
         if real < model {
-            bad += 1;
-            println!("SQRTLIM-FAIL {} real={} model={}", m, real, model);
+            rep.fail(format!("sqrtlim {}", m), format!("real limit {} < isqrt+1 = {}", real, model));
         } else if real > model {
             above += 1;
         }
     }
-    println!("SQRTLIM checked={} below_model={} above_model={}", hi - 1, bad, above);
+    rep.hist.insert("real_limit_above_model".into(), above);
+    rep.sample(format!("m=1..{}: (m as f32).sqrt() as usize + 1 >= isqrt(m) + 1", hi));
+    rep.print("S04-sqrtlim", "every m below the bound (exhaustive); non-trivial = m >= 25 (the first odd square reached by the divisor loop)");
 }
